@@ -37,7 +37,7 @@ COMPONENTS = {
              "cutplace.checks", "csv", "io.TextIOWrapper/BufferedWriter/StringIO"],
     "stub": ["SimFS/SimRaw (short writes)", "os.linesep seam", "client"],
 }
-PROBES_REQUIRED = ["unencodable-row", "write_rows-batch", "rejection-then-acceptance", "duplicate-of-rejected-row", "wrong-item-count", "bad-cell", "duplicate",
+PROBES_REQUIRED = ["cid-given-as-path", "write_rows-with-one-shot-iterator", "unencodable-row", "write_rows-batch", "rejection-then-acceptance", "duplicate-of-rejected-row", "wrong-item-count", "bad-cell", "duplicate",
                    "linesep-crlf-with-any", "delimiter:none", "delimiter:any", "delimiter:crlf", "target:path",
                    "target:stream", "header-row-written", "end-check-fails"]
 EOLS = {"lf": "\n", "cr": "\r", "crlf": "\r\n"}
@@ -64,7 +64,7 @@ def generate(seed, tier):
             "checks": checks,
             "line_delimiter": swarm.choice(["lf", "cr", "crlf", "any"] + (["none"] if fmt == "fixed" else []))}
     pools = {"k": (["a", "b", "c"], ["x", ""]), "n": (["1", "7", "42"], ["z", "100", "-1"]),
-             "t": (["x", "yz", "abc"] + (["a,b"] if fmt == "delimited" else []), ["abcd", ""])}
+             "t": (["x", "yz", "abc"] + (["a,b", "a\rb", "a\nb", "\r\n"] if fmt == "delimited" else []), ["abcd", ""])}
     spec["encoding"] = swarm.choice(["utf-8", "utf-8", "ascii", "iso-8859-1"])
     if spec["encoding"] != "utf-8":
         # characters the target encoding cannot store: such a row passes validation but cannot be written
@@ -95,7 +95,7 @@ def generate(seed, tier):
         batches.append(size)
         remaining -= size
     return {"io": config, "cid": spec, "rows": rows, "batches": batches, "target": swarm.choice(["stream", "path"]),
-            "close": True}
+            "close": True, "cid_as_path": swarm.random() < 0.2, "rows_as_iterator": swarm.random() < 0.5}
 
 
 def _encodable(row, encoding):
@@ -135,7 +135,13 @@ def execute(scenario):
     attempted = []  # data rows the writer was actually asked to validate, in order
     with simfs.Seams(fs):
         cid = lib.load_cid(tabular.cid_rows(spec))
-        run = lib.WriteRun(cid, fs, target)
+        writer_cid = cid
+        if scenario.get("cid_as_path"):
+            # the writer is handed the path of the CID (stored as a CSV file) instead of a Cid object
+            fs.store("cid.csv", lib.render_delimited(tabular.cid_rows(spec), ",", '"', "\n").encode("utf-8"))
+            writer_cid = "cid.csv"
+            result.probe("cid-given-as-path")
+        run = lib.WriteRun(writer_cid, fs, target)
         if run.writer is None:
             raise core.Violation("writer-construction-failed", features, repr(lib.error_summary(run.init_error)))
         accepted = []
@@ -171,7 +177,11 @@ def execute(scenario):
             if len(batch) == 1:
                 ok = run.write_row(batch[0])
             else:
-                status, value = lib.call(run.writer.write_rows, [list(row) for row in batch])
+                batch_rows = [list(row) for row in batch]
+                if scenario.get("rows_as_iterator"):
+                    batch_rows = iter(batch_rows)  # any iterable of rows will do, also a one-shot one
+                    result.probe("write_rows-with-one-shot-iterator")
+                status, value = lib.call(run.writer.write_rows, batch_rows)
                 run.results.append("ok" if status == "ok" else value)
                 ok = status == "ok"
                 result.probe("write_rows-batch")
@@ -332,6 +342,8 @@ def candidates(scenario):
         yield lib.with_value(scenario, ["io", "linesep"], "\n")
     if scenario.get("target") != "stream":
         yield lib.with_value(scenario, ["target"], "stream")
+    if scenario.get("cid_as_path"):
+        yield lib.with_value(scenario, ["cid_as_path"], False)
     fields = scenario["cid"]["fields"]
     if len(fields) > 1:
         name = fields[-1]["name"]
